@@ -503,6 +503,30 @@ def rule_R07_6(ctx):
                 r.fail("%s | for-loop evaluator calls=%s" % (se.path, ",".join(kinds)),
                        "the for loop must only evaluate its body per "
                        "iteration; found %s" % [(c.res) for c in evals])
+            # the loop steps through a snapshot: apart from evaluating the
+            # body (and binding the loop variables) nothing inside the loop
+            # may lock a list/object cell, i.e. read the live container
+            import locks as _locks
+            eff = ctx.memo("lock_eff", lambda: _locks.lock_effects(prog))
+            live = []
+            for c in se.calls():
+                if c.bb not in body or c.is_ptr or c.res in reach_se:
+                    continue
+                t_ = mir.mutex_locked_type(c)
+                locked = ({t_} if t_ else set()) | set(eff.get(c.res, ()))
+                cells = sorted(x for x in locked if "SourcedValue" in x and "HashMap" not in x)
+                if cells:
+                    live.append((c, cells))
+            r.inst("for loop: %d call(s) inside the loop can lock a container cell" % len(live))
+            if not live:
+                r.ok()
+            else:
+                r.fail("%s | for-loop reads the live container via %s" % (se.path, live[0][0].res.split("::")[-1]),
+                       "inside the `for` loop %s can lock %s: the loop reads "
+                       "the container being iterated on every step instead of "
+                       "a snapshot taken before the loop, so writes made by "
+                       "the body change the remaining iterations"
+                       % (live[0][0].res, live[0][1]), where=live[0][0].loc)
             # the iterated collection is produced before the loop
             its = [c for c in se.calls() if c.bb in body and (c.declared or "") == "std::iter::Iterator::next"]
             srcs = []
